@@ -76,6 +76,13 @@ def observe(spec, inp):
             got["objs"] = [[int(v) for v in o] for o in objs]
             got["same"] = numpy.asarray(P).astype(int).tolist() == numpy.asarray(M0).astype(int).tolist() and [v.id for v in P.variables] == [v.id for v in M0.variables]
             if spec["answer"] == "raise":
+                how = spec.get("raise_how", "message")
+                if how == "bare":
+                    raise SolverRaised
+                if how == "assert":
+                    raise AssertionError()
+                if how == "two-args":
+                    raise SolverRaised("solver failed", 3)
                 raise SolverRaised("x")
             res = []
             for k in range(len(got["objs"])):
